@@ -136,6 +136,19 @@ def merge(ck, results, seed, force_conv=None):
 def validate_traces(ck, path, label, seed, timeout=600):
     """TLC decides the recorded executions; a rejected execution is reported and cut out, then TLC runs again."""
     lines = open(path).read().splitlines()
+    # a harness that died while recording (reported as a crash by merge()) leaves a partial last line: keep whole executions only
+    def whole(l):
+        try:
+            json.loads(l)
+            return True
+        except ValueError:
+            return False
+    if lines and not whole(lines[-1]):
+        lines.pop()
+        while lines and not lines[-1].startswith('{"e":"Reset"'):
+            lines.pop()
+        if lines:
+            lines.pop()
     total_exec = sum(1 for l in lines if l.startswith('{"e":"Reset"'))
     accepted = 0
     for attempt in range(6):
@@ -147,7 +160,7 @@ def validate_traces(ck, path, label, seed, timeout=600):
             f.write("\n".join(lines) + "\n")
         r = vlib.tlc("TraceMDL", "TraceMDL.cfg", workers=1, env={"TRACE": p}, timeout=timeout, xmx="6g")
         if r.error:
-            raise vlib.InfraError("TraceMDL: " + r.error)
+            raise vlib.InfraError("TraceMDL: " + r.error + " | " + r.out[-2500:])
         ck.tlc_stats(r, "TraceMDL(%s)#%d" % (label, attempt))
         shutil.rmtree(wd, ignore_errors=True)
         if r.violated is None:
